@@ -171,6 +171,9 @@ class SymRecord:
 
     def __getattr__(self, k):
         st = object.__getattribute__(self, "_store")
+        if k in st and not self.__dict__.get("_attr_ok", True):
+            # a row of a plain structured ndarray is a numpy.void: fields only by item access
+            raise AttributeError(f"'numpy.void' object has no attribute '{k}'")
         if k in st:
             v = st[k]
             return v if isinstance(v, _np.ndarray) else v[0]
@@ -239,7 +242,16 @@ class SymRecArray:
             if r.dtype != dt:
                 # numpy would try to promote; the repo only logs a warning in that case
                 raise TypeError("invalid type promotion with structured datatype(s).")
-        return cls(len(recs), dt, [r.copy() for r in recs])
+        rows = [r.copy() for r in recs]
+        for r in rows:                      # np.array([records]) is a plain structured ndarray, not a recarray
+            object.__setattr__(r, "_attr_ok", False)
+        return cls(len(recs), dt, rows)
+
+    def view(self, kind=None):
+        """`.view(np.recarray)`: the same rows with attribute access"""
+        for r in self._recs:
+            object.__setattr__(r, "_attr_ok", True)
+        return self
 
     def __len__(self):
         return len(self._recs)
